@@ -319,6 +319,10 @@ func (fr *c08Run) classify(oracle, where, msg string, afterReopen bool) {
 		sig += ":after-reopen"
 		if (oracle == "acked-missing" || oracle == "contents-mismatch") && journalWriteFailed && failedWrite {
 			sig = "writeLocked:journal-sync-failed:seq-reused:" + oracle + ":after-" + jkind + "/journal"
+		} else if fam := fr.manifestFamily(); fam != "" {
+			// an edit abandoned in memory whose record reached the manifest (sequence number ahead, tables that
+			// were then removed or overwritten): the same root as the missing-files outcome
+			sig = fam + ":" + oracle + ":after-reopen"
 		}
 	}
 	fr.violate(sig, where+": "+msg, nil)
@@ -363,6 +367,21 @@ func (fr *c08Run) run() {
 	}
 	st := stor.New()
 	st.KeepOps(false)
+	if os.Getenv("VERIF_LOG") != "" { // debugging aid of FAULTPLAN: storage log + operations on stderr at the end
+		var lines []string
+		st.LogLines = &lines
+		st.KeepOps(true)
+		defer func() {
+			time.Sleep(100 * time.Millisecond)
+			ops := st.Ops()
+			for _, op := range ops {
+				fmt.Fprintln(os.Stderr, "op", op.String())
+			}
+			for _, l := range lines {
+				fmt.Fprintln(os.Stderr, "log", l)
+			}
+		}()
+	}
 	fr.inj = c08NewInjector(fr.plan.Faults)
 	st.SetHooks(fr.inj.hook, nil)
 	var db *leveldb.DB
@@ -589,9 +608,34 @@ func (fr *c08Run) run() {
 	}
 	fr.readCheck(db3, "after reopen", true)
 	if err, hung := crCall(crWdTimeout, func() error { return db3.Put([]byte("zz-after"), []byte("x"), nil) }); hung || err != nil {
-		fr.violate("fault:reopen:put", fmt.Sprintf("Put after fault-free reopen: %v hung=%v", err, hung), nil)
+		sig := "fault:reopen:put"
+		if fam := fr.manifestFamily(); fam != "" && err != nil && crErrClass(err) != "other" {
+			sig = fam + ":" + crErrClass(err) + "-after-reopen"
+		}
+		fr.violate(sig, fmt.Sprintf("Put after fault-free reopen: %v hung=%v", err, hung), nil)
 	}
 	crCall(crWdTimeout, db3.Close)
+}
+
+// manifestFamily returns "session.commit:manifest-<sync|write>-failed-then-<discard|revert>" when a manifest
+// write or sync failure was injected (the record may have reached the file although the edit was abandoned).
+func (fr *c08Run) manifestFamily() string {
+	manifestFault := ""
+	for _, op := range fr.inj.firedOps() {
+		if op.Fd.Type == storage.TypeManifest && (op.Kind == stor.OpSync || op.Kind == stor.OpWrite) && manifestFault != "sync" {
+			manifestFault = string(op.Kind)
+		}
+	}
+	if manifestFault == "" {
+		return ""
+	}
+	then := "revert"
+	for _, f := range fr.failedCalls {
+		if strings.HasPrefix(f, "Transaction.Commit") {
+			then = "discard"
+		}
+	}
+	return "session.commit:manifest-" + manifestFault + "-failed-then-" + then
 }
 
 // reopenSig names a failed fault-free reopen: known defect families get their fixed names.
